@@ -130,32 +130,50 @@ def r2(case, rec):
 @st.composite
 def export_case(draw):
     big = draw(st.integers(0, 5)) == 0
-    prog = draw(P.program(max_pops=5 if big else 4, allow_ancient=False))
+    # true splits of a population that is not the last axis make the program reorder its axes (often by a 3-cycle or longer)
+    prog = draw(P.program(max_pops=5 if big else 4, allow_ancient=False, favor_split=draw(st.booleans())))
     return dict(prog=prog, gt=draw(st.sampled_from([None, None, 25.0, 0.5])), named=draw(st.booleans()))
 
 
 def _export_roundtrip(prog, gt, named):
+    """(spectrum of the exported graph, native spectrum computed with the axis order the import uses in every epoch, reordered?)"""
+    from dadi.Demes import Demes as DD
     with dadi_call('native program'):
         fs_n, names, frozen = P.run_native(prog, True, named=named)
     reordered = any(isinstance(e, dadi.Demes.Reorder) for e in dadi.Demes.cache)
     with dadi_call('Demes.output', stage='output'):
         g = dadi.Demes.output(Nref=prog['N0'], generation_time=gt)
-        ids = list(dadi.Demes.cache[-1].deme_ids)
+        events = list(dadi.Demes.cache)
+        ids = list(events[-1].deme_ids)
     require(len(ids) == len(names), 'exported history ends with %d demes, the program with %d' % (len(ids), len(names)))
     if named:
         require(ids == list(names), 'exported history ends with demes %r, the program named them %r' % (ids, names))
     with dadi_call('spectrum of the exported graph', stage='reimport'):
         fs_d = dadi.Demes.SFS(g, ids, [prog['ns']] * len(ids), prog['pts'], theta=prog['theta'])
+    if reordered:
+        # The import integrates each epoch with its demes in the order of the exported graph, which for a program that reordered
+        # its axes is not the program's own order. Recompute the native spectrum with that order in every epoch (the model is the
+        # same; only the order of the directional sub-steps changes), so that both sides make the same primitive calls.
+        integ = [list(e.deme_ids) for e in events if isinstance(e, dadi.Demes.Integration)]
+        present, _ = None, None
+        gg = g.in_generations() if g.time_units != 'generations' else g
+        _, demes_present = DD._get_demographic_events(gg, gg.discrete_demographic_events(), ids)
+        present = [demes_present[iv] for iv in sorted(demes_present, reverse=True) if iv[0] != math.inf]
+        require(len(present) == len(integ) == len(prog['steps']), 'the exported graph has %d epochs, the program %d integrations' % (len(present), len(integ)))
+        orders = []
+        for have, want in zip(integ, present):
+            require(sorted(have) == sorted(want), 'epoch demes %r in the exported graph, %r recorded by the integration' % (want, have))
+            orders.append([have.index(n) for n in want])
+        with dadi_call('native program'):
+            fs_n, names2, _ = P.run_native(prog, True, named=named, orders=orders)
     m = ~np.ma.getmaskarray(fs_n)
-    a, b = data(fs_d)[m], data(fs_n)[m]
-    return a, b, reordered
+    return data(fs_d)[m], data(fs_n)[m], reordered
 
 
-@REG.relation('R3-export-reimport', strategy=export_case, quick=(400, 16), thorough=(6000, 16))
+@REG.relation('R3-export-reimport', strategy=export_case, quick=(640, 16), thorough=(8000, 16))
 def r3(case, rec):
     """Running a native program, exporting the recorded history with Demes.output(Nref[, generation_time]) and computing the
     spectrum of the exported graph reproduces the program's spectrum (default deme names, or names passed as deme_ids)."""
-    from harness import drivers as D
     prog = case['prog']
     f, lab, nt = feats(prog)
     for s in prog['steps']:
@@ -165,25 +183,7 @@ def r3(case, rec):
     a, b, reordered = _export_roundtrip(prog, case['gt'], case['named'])
     rec.case(case, nt, lab + ['gt' if case['gt'] else 'generations', 'named' if case['named'] else 'default-names', 'reordered' if reordered else 'aligned'])
     what = 'spectrum of the exported graph vs the program that was exported [%s%s]' % (' '.join(lab), ' named' if case['named'] else '')
-    if not reordered:
-        require_close(a, b, 1e-6, what, rec, key='export', pops=f['max_pops'])
-        return
-    # The program reordered its axes, so the exported graph lists its demes in another order than the program's axes and the two
-    # computations take their directional sub-steps in a different order: they agree only up to an operator-splitting error that
-    # shrinks with the time step. An export error (a wrong size, time, ancestor or proportion) does not shrink.
-    d0 = np.abs(a - b).max() / np.abs(b).max()
-    rec.err('export (reordered axes, default step)', d0)
-    if d0 <= 1e-9:
-        return
-    require(d0 <= 2e-3, what + ': differ by %.3e' % d0)
-    if f['max_pops'] >= 5:
-        return
-    with D.timescale(factor=6.25e-5):
-        a2, b2, _ = _export_roundtrip(prog, case['gt'], case['named'])
-    d1 = np.abs(a2 - b2).max() / np.abs(b2).max()
-    rec.err('export (reordered axes, step/16)', d1)
-    require(d1 <= 0.5 * d0 or d1 <= 1e-7, what + ': differ by %.3e at the default time step and %.3e at a 16 times smaller one (does not vanish with '
-            'the step, so it is not an operator-splitting difference)' % (d0, d1))
+    require_close(a, b, 1e-6, what, rec, key='export (program reorders its axes)' if reordered else 'export', pops=f['max_pops'])
 
 
 @st.composite
@@ -206,8 +206,10 @@ def r4(case, rec):
     """Sampling every deme t ago (all samples ancient), and the graph sliced at t, both equal the native program stopped t before
     its end - including cuts inside exponential and linear epochs and older ancient samples."""
     prog, t = case['prog'], case['t']
-    for s in prog['steps']:
-        pass
+    Ts = [s['integrate']['T'] for s in prog['steps']]
+    for b in [sum(Ts[i:]) for i in range(len(Ts) + 1)]:
+        if t != b and abs(t - b) < 1e-7:
+            raise Reject('cut within round-off of an epoch boundary but not on it')
     f, lab, nt = feats(prog)
     # is the cut inside an epoch with a size change?
     togo = sum(s['integrate']['T'] for s in prog['steps'])
@@ -278,6 +280,10 @@ def r5(case, rec):
                 tt = cands[0]
     else:
         tt = case['frac'] * tot
+    Tsx = [s['integrate']['T'] for s in prog['steps']]
+    for b in [sum(Tsx[i:]) for i in range(len(Tsx) + 1)]:
+        if tt != b and abs(tt - b) < 1e-7:
+            tt = b                      # within round-off of an epoch boundary: take the boundary itself
     tg = 2.0 * prog['N0'] * tt
     rec.case(case, nt, lab + ['single-root' if single else 'structure-only'])
     with dadi_call('DemesUtil.swipe'):
